@@ -30,6 +30,7 @@ type World struct {
 	LoadS    float64
 
 	genv      *guardEnv
+	funcSet   map[*ssa.Function]bool
 	subst     map[ssa.Value]string
 	callers   map[*ssa.Function][]ssa.CallInstruction
 	fieldFns  map[*types.Var][]*ssa.Function
@@ -167,6 +168,11 @@ func (w *World) collectFuncs() {
 	}
 	w.Funcs = out
 	sort.Slice(w.Funcs, func(i, j int) bool { return funcKey(w.Funcs[i]) < funcKey(w.Funcs[j]) })
+	w.funcSet = map[*ssa.Function]bool{}
+	for _, f := range w.Funcs {
+		w.funcSet[f] = true
+	}
+	worldOfProg.Store(w.Prog, w)
 }
 
 // funcKey is the stable construct name of a function: pkg.(Recv).Name[$n]
@@ -274,3 +280,5 @@ func outermost(f *ssa.Function) *ssa.Function {
 	}
 	return f
 }
+
+func (w *World) inFuncs(f *ssa.Function) bool { return w.funcSet[f] }
